@@ -183,6 +183,102 @@ pub fn run(thorough: bool) -> Vec<Part> {
             "read_carried_bytes_past_a_completed_request", "empty_read_while_partial_line_buffered",
             "read_filled_space_after_carry(line_crossed_buffer_edge)", "read_completed_two_or_more_requests"]);
         part.set("alphabet_pieces", json!(cfg.pieces.len()));
+        // Independent, stateless cross-check (no state digest involved anywhere): concrete
+        // streams, every segmentation with at most 2 (thorough: 3) cuts, with and without
+        // empty reads before each segment; the observation sequence must equal the greedy
+        // run's and the step-wise reference comparison must hold on every run.
+        let pcs = alphabet::small(1);
+        let by = |name: &str| pcs.iter().find(|p| p.name == name).unwrap().bytes.clone();
+        let seqs: Vec<Vec<&str>> = vec![
+            vec!["rl_get", "h_xa", "blank", "rl_put10", "h_cl3", "blank", "body_abc", "rl_get", "blank"],
+            vec!["rl_put10", "h_expect", "h_cl40", "blank", "body_tricky40", "rl_get", "h_xbb", "blank"],
+            vec!["rl_len_b", "h_len_b", "h_xa", "blank", "rl_get", "blank"],
+            vec!["rl_get", "h_len_b-1", "h_xbb", "h_len_b", "blank", "rl_get", "blank"],
+            vec!["rl_get", "h_xa", "h_len_b+1", "blank"],
+            vec!["rl_get", "blank", "rl_len_b+1"],
+            vec!["rl_patch_utf8", "h_cl3_lower", "h_expect_unsupported", "blank", "body_abc", "rl_bad_version"],
+            vec!["rl_get", "h_cl41", "blank", "body_abc"],
+            vec!["rl_get", "h_xa", "stray_cr", "blank"],
+            vec!["rl_put10", "h_cl3", "blank", "body_abc", "rl_put10", "h_cl3", "blank", "body_abc", "rl_get", "h_nocolon"],
+        ];
+        let streams: Vec<Vec<u8>> = seqs.iter().map(|q| q.iter().flat_map(|n| by(n)).collect()).collect();
+        let maxcuts = if thorough { 3 } else { 2 };
+        let mut jobs: Vec<(usize, usize)> = vec![];
+        for (si, st) in streams.iter().enumerate() {
+            for c1 in 0..st.len() {
+                jobs.push((si, c1));
+            }
+        }
+        let streams2 = streams.clone();
+        let t = crate::par::par_enum(
+            jobs.len() as u64,
+            workers(),
+            300,
+            move |j, t| {
+                let (si, c1) = jobs[j as usize];
+                let st = &streams2[si];
+                let n = st.len();
+                let mut cfg = Cfg::base("C01", &format!("stateless stream #{}", si), vec![], 40);
+                cfg.stream = Some(st.clone());
+                let (gv, gobs, _, gacts) = crate::connx::run_segments(&cfg, &[n], false);
+                if let Some((sig, d)) = gv {
+                    t.violate(&sig, format!("[stream #{} greedy] {}", si, d), crate::connx::schedule_replay(&cfg, &gacts));
+                    return;
+                }
+                let mut try_cuts = |cuts: &[usize], t: &mut crate::par::Tally| {
+                    let mut segs = vec![];
+                    let mut prev = 0;
+                    for c in cuts.iter().chain(std::iter::once(&n)) {
+                        if *c > prev {
+                            segs.push(*c - prev);
+                            prev = *c;
+                        }
+                    }
+                    for empties in [false, true] {
+                        let (v, obs, _, acts) = crate::connx::run_segments(&cfg, &segs, empties);
+                        t.evals += 1;
+                        if cuts.len() >= 2 {
+                            t.nontrivial += 1;
+                        }
+                        if let Some((sig, d)) = v {
+                            t.violate(&sig, format!("[stream #{} cuts {:?} empties {}] {}", si, cuts, empties, d), crate::connx::schedule_replay(&cfg, &acts));
+                        } else if obs != gobs {
+                            t.violate("segmentation-dependent-delivery", format!("stream #{} cut at {:?} (empty reads: {}) delivers a different observation sequence than the unsplit stream", si, cuts, empties), crate::connx::schedule_replay(&cfg, &acts));
+                        }
+                    }
+                };
+                if c1 == 0 {
+                    try_cuts(&[], t);
+                    return;
+                }
+                try_cuts(&[c1], t);
+                for c2 in c1 + 1..n {
+                    try_cuts(&[c1, c2], t);
+                    if maxcuts >= 3 {
+                        for c3 in c2 + 1..n {
+                            try_cuts(&[c1, c2, c3], t);
+                        }
+                    }
+                }
+                if c1 == 7 {
+                    t.sample(json!({"stream": crate::util::show(st), "first_cut": c1, "max_cuts": maxcuts}));
+                }
+            },
+            |j| format!("stateless cut job {}", j),
+        );
+        part.add("stateless_runs", t.evals);
+        part.set("stateless_streams", json!(streams.len()));
+        part.set("stateless_max_cuts", json!(maxcuts));
+        part.add("traces_validated_against_impl", t.evals);
+        for v in &t.violations {
+            part.violations.push(v.clone());
+        }
+        for e in &t.machinery_errors {
+            part.machinery_errors.push(e.clone());
+        }
+        for smp in t.samples.iter().take(1) {
+            part.push("samples", json!({"stateless": smp}));
+        }
         for (v, _) in &st.violations {
             part.violations.push(v.clone());
         }
